@@ -8,6 +8,7 @@ import (
 	"time"
 
 	"github.com/blevesearch/bleve/v2"
+	_ "github.com/blevesearch/bleve/v2/config"
 	"github.com/blevesearch/bleve/v2/index/scorch"
 	"github.com/blevesearch/bleve/v2/index/upsidedown"
 	"github.com/blevesearch/bleve/v2/index/upsidedown/store/gtreap"
@@ -81,6 +82,60 @@ func makeCorpus(k int) []doc {
 
 var engines = []string{"scorch", "upsidedown"}
 
+// ---------------------------------------------------------------- custom date time parsers
+// Every index mapping registers these under their names (mapping.AddCustomDateTimeParser); facet
+// date ranges and DateRangeStringQuery name them. text renders an instant in the parser's own
+// syntax (input generation only - what the bounds mean is decided by bleve alone, both before and
+// after the JSON round trip). Only "rfcnano" accepts RFC 3339 text.
+type dtParser struct {
+	Name    string
+	Type    string // "" = a parser bleve registers by itself under Name
+	Layouts []string
+	text    func(time.Time) string
+}
+
+func goLayout(l string) func(time.Time) string {
+	return func(t time.Time) string { return t.UTC().Format(l) }
+}
+
+var dtParsers = []dtParser{
+	{"dmy12", "sanitizedgo", []string{"02/01/2006 3:04PM"}, goLayout("02/01/2006 3:04PM")},
+	{"slash", "flexiblego", []string{"2006/01/02 15:04:05", "2006/01/02"}, goLayout("2006/01/02 15:04:05")},
+	{"pct", "percentstyle", []string{"%d.%m.%Y %H:%M:%S"}, goLayout("02.01.2006 15:04:05")},
+	{"pctfrac", "percentstyle", []string{"%Y%m%d %H%M%S.%N"}, goLayout("20060102 150405.000000000")},
+	{"isost", "isostyle", []string{"yyyyMMdd'T'HHmmss"}, goLayout("20060102T150405")},
+	{"rfcnano", "flexiblego", []string{time.RFC3339Nano, "2006-01-02"}, goLayout(time.RFC3339Nano)},
+	{"unix_milli", "", nil, func(t time.Time) string { return fmt.Sprintf("%d", t.UnixMilli()) }},
+	{"unix_sec", "", nil, func(t time.Time) string { return fmt.Sprintf("%d", t.Unix()) }},
+}
+
+func dtParserNamed(name string) *dtParser {
+	for i := range dtParsers {
+		if dtParsers[i].Name == name {
+			return &dtParsers[i]
+		}
+	}
+	return nil
+}
+
+func registerDateTimeParsers(m interface {
+	AddCustomDateTimeParser(string, map[string]interface{}) error
+}) error {
+	for _, p := range dtParsers {
+		if p.Type == "" {
+			continue
+		}
+		ls := make([]interface{}, len(p.Layouts))
+		for i, l := range p.Layouts {
+			ls[i] = l
+		}
+		if err := m.AddCustomDateTimeParser(p.Name, map[string]interface{}{"type": p.Type, "layouts": ls}); err != nil {
+			return fmt.Errorf("date time parser %s: %v", p.Name, err)
+		}
+	}
+	return nil
+}
+
 type idxEntry struct {
 	once sync.Once
 	idx  bleve.Index
@@ -96,6 +151,10 @@ func getIndex(corpus int, engine string) (bleve.Index, error) {
 	e.once.Do(func() {
 		m := bleve.NewIndexMapping()
 		m.DefaultMapping.AddFieldMappingsAt("loc", bleve.NewGeoPointFieldMapping())
+		if err := registerDateTimeParsers(m); err != nil {
+			e.err = err
+			return
+		}
 		var idx bleve.Index
 		var err error
 		if engine == "upsidedown" {
